@@ -279,9 +279,25 @@ func checkC03(tier string) *Report {
 		names = append(names, s)
 	}
 	sort.Strings(names)
-	for _, must := range []string{"bank.SendCoinsFromModuleToModule", "bank.SendCoins", "bankmsg.Send", "cctp.DepositForBurn", "cctp.DepositForBurnWithCaller",
-		"warp.Token", "warp.RemoteTransfer", "inner.OnRecvPacket", "events.Emit[EventPayloadProcessed]", "events.Emit[EventFeeAction]", "store.Get[params]", "store.Has[paused_protocols]", "store.Has[paused_cross_chains]", "store.Has[paused_actions]"} {
-		rep.Guard(siteSeen[must] > 0, "fault site %s never reached (sites: %v)", must, names)
+	// vacuity guards on GROUPS of fault sites (not on individual names: a correct refactoring may legitimately
+	// stop reading a collection or emitting one particular event)
+	groups := map[string][]string{
+		"bank transfers (fees / sweep / internal route)": {"bank.SendCoins", "bank.SendCoinsFromModuleToModule", "bankmsg.Send"},
+		"bridge servers":                                  {"cctp.DepositForBurn", "cctp.DepositForBurnWithCaller", "warp.RemoteTransfer", "warp.Token"},
+		"wrapped ICS-20 application":                      {"inner.OnRecvPacket"},
+		"event emission":                                  {"events.Emit["},
+		"store access":                                    {"store."},
+	}
+	for g, prefixes := range groups {
+		n := 0
+		for site, c := range siteSeen {
+			for _, p := range prefixes {
+				if strings.HasPrefix(site, p) {
+					n += c
+				}
+			}
+		}
+		rep.Guard(n > 0, "no fault was injected in the group %q (sites reached: %v)", g, names)
 	}
 
 	// ---------------- natural failures on the FULL application
